@@ -11,7 +11,7 @@ COQ_IMPORTS = 'From PB Require Import model.M_align model.M_tsops exec.X_align.\
 PER_FILE = 500
 CASE_TIMEOUT = 10
 RULE = ('cases: add_/sub_/mul_/div_/pow_/gt_/ge_/lt_/le_ on 2 operands, each a float Series, a DataFrame (1-3 columns), a scalar '
-        '(incl. 0 and NaN) or - for add_/sub_/mul_/div_ - a list of up to 3 of them (2..4 timeseries in all); min_/max_ and '
+        '(incl. 0 and NaN) or - for add_/sub_/mul_/div_ - a list of up to 3 of them (2..4 timeseries in all), plus a stream of list operands / denominators whose frames have different column sets under columns=oj; min_/max_ and '
         'df_sum/df_mean/df_count on lists of 1-4 Series or multi-column DataFrames plus scalars; indices drawn as a family on a '
         '14-day grid (random, nested, disjoint, blocks, empty), NaN and 0 anywhere; every index policy in {ij, oj} (also lj, rj), '
         'method in {None, ffill, bfill}, column policy in {ij, oj} (also lj, rj). Values are small integers chosen so that every '
@@ -415,6 +415,23 @@ def gen_cases(rng, tier):
         s = gen_operands(rng, 1, ['num64'], rng.choice(['none', 'none', 'all', 'mixed']))[0]
         for z in (0, None, 2):
             cases.append({'kind': 'op', 'op': 'div', 'a': s, 'b': {'N': z}, 'how': rng.choice(['ij', 'oj']), 'method': rng.choice([None, 'ffill']), 'columns': rng.choice(['ij', 'oj'])})
+    for _ in range(200 if q else 3000):                   # list operands / denominators with DIFFERENT column sets under columns='oj'
+        op = rng.choice(['div', 'div', 'sub', 'sub', 'add', 'mul'])
+        fam = index_family(rng, 3)
+        ra, rb = ('num64', 'den') if op == 'div' else ('int', 'int')
+        a_cols = list('abcd') if rng.random() < 0.6 else rng.sample('abcd', rng.choice([2, 3]))
+        b1 = rng.sample('abcd', rng.choice([2, 3]))
+        b2 = rng.sample('abcd', rng.choice([2, 3]))
+        while set(b2) == set(b1):
+            b2 = rng.sample('abcd', rng.choice([2, 3]))
+        A = gen_ts(rng, fam[0], 'F', ra, a_cols)
+        B = [gen_ts(rng, fam[1], 'F', rb, b1), gen_ts(rng, fam[2], 'F', rb, b2)]
+        if op == 'div' and not (set(b1) | set(b2)) <= set(a_cols):      # 1/b must stay an integer where the numerator lacks a column
+            for l in B:
+                l['F']['rows'] = [[(None if v is None else max(-1, min(1, v))) for v in row] for row in l['F']['rows']]
+        swap = op in ('sub', 'add', 'mul') and rng.random() < 0.3
+        cases.append({'kind': 'op', 'op': op, 'a': {'many': B} if swap else A, 'b': A if swap else {'many': B},
+                      'how': rng.choice(['ij', 'oj']), 'method': rng.choice([None, None, 'ffill']), 'columns': 'oj'})
     for _ in range(150 if q else 2500):                   # min_ / max_
         frames = rng.choice(['none', 'none', 'all'])
         n = rng.choice([1, 2, 2, 3, 4])
